@@ -309,37 +309,34 @@ pub fn run_history(h: &History) -> Result<String, Violation> {
         let final_state: Maps = [scan_ks(kss[0].inner()).map_err(|x| Violation::new("op_error", x))?, scan_ks(kss[1].inner()).map_err(|x| Violation::new("op_error", x))?];
         // brute-force serial orders of the committed transactions, consistent with real time
         let com: Vec<usize> = (0..n).filter(|t| committed[*t] == Some(true)).collect();
-        let mut perm = com.clone();
-        let mut found = false;
-        let mut tried = 0;
-        permute(&mut perm, 0, &mut |order: &[usize]| {
-            if found {
-                return;
+        // depth-first over serial orders, pruned as soon as a prefix contradicts real time or a recorded read (the
+        // sequential filler transactions of the long histories leave only a handful of admissible orders)
+        fn search(placed: &mut Vec<usize>, rest: &mut Vec<usize>, m: &Maps, h: &History, results: &[Vec<String>], begin_at: &[usize], commit_at: &[usize], final_state: &Maps) -> bool {
+            if rest.is_empty() {
+                return m == final_state;
             }
-            // real-time order
-            for (i, a) in order.iter().enumerate() {
-                for b in &order[i + 1..] {
-                    if commit_at[*b] < begin_at[*a] {
-                        return;
-                    }
+            for i in 0..rest.len() {
+                let t = rest[i];
+                // t may come next only if no unplaced transaction committed before t began
+                if rest.iter().any(|u| *u != t && commit_at[*u] < begin_at[t]) {
+                    continue;
                 }
-            }
-            tried += 1;
-            let mut m = initial_map();
-            for t in order {
                 let mut view = m.clone();
-                for (i, s) in h.txs[*t].iter().enumerate() {
-                    if model_step(&mut view, s) != results[*t][i] {
-                        return;
-                    }
+                if h.txs[t].iter().enumerate().any(|(k, s)| model_step(&mut view, s) != results[t][k]) {
+                    continue;
                 }
-                m = view;
+                rest.remove(i);
+                placed.push(t);
+                let ok = search(placed, rest, &view, h, results, begin_at, commit_at, final_state);
+                placed.pop();
+                rest.insert(i, t);
+                if ok {
+                    return true;
+                }
             }
-            if m == final_state {
-                found = true;
-            }
-        });
-        let _ = tried;
+            false
+        }
+        let found = search(&mut vec![], &mut com.clone(), &initial_map(), h, &results, &begin_at, &commit_at, &final_state);
         if !found {
             let desc: Vec<String> = (0..n)
                 .map(|t| format!("T{t}[{}] {:?} -> {:?}", match committed[t] { Some(true) => "committed", Some(false) => "conflict", None => "open" }, h.txs[t], results[t]))
